@@ -129,7 +129,7 @@ pub fn configs(tier: Tier) -> Vec<InCfg> {
         // application states: idle / outstanding sends / two gated handlers / instead of the handshake / streaming an outbound publish
         // (clients also: a lone SUBSCRIBE / a lone UNSUBSCRIBE outstanding, so that every ack type of the
         // alphabet meets a request that is at the head of the in-flight queue)
-        for state in 0..9 {
+        for state in 0..10 {
             let mut ep = EpCfg::new(ver, role);
             ep.handler_auto = state != 2;
             // state 8: the protocol service is gated - every PUBREL / SUBSCRIBE / PING ... suspends until the explorer
@@ -141,6 +141,10 @@ pub fn configs(tier: Tier) -> Vec<InCfg> {
                     a.push(SK::Sub);
                 }
                 a
+            } else if state == 9 {
+                // sends the application has given up waiting for (future dropped after the packet was written):
+                // their acknowledgements still arrive (seeded change C16_r6: PUBREC for such a send panicked)
+                vec![SK::Q1Abandon, SK::Q2Abandon]
             } else if state == 5 {
                 vec![SK::Sub]
             } else if state == 6 {
@@ -222,7 +226,7 @@ pub fn run(tier: Tier) -> i32 {
         ck.explore::<In>("inbound", i, c, &ecfg);
     }
     ck.rule = format!(
-        "per role and version: every sequence of up to {} well-formed packets over an alphabet of 27-31 templates (every packet type incl. those illegal in that direction, ids in use / free / unknown, PUBLISH complete / split in two or three writes / left incomplete / duplicate id / retain / wildcard topic / alias, second CONNECT, every ack type) against 6 (clients 7) application states (idle; idle with a gated protocol service and a QoS 2 publish awaiting its PUBREL; outstanding QoS1+QoS2(+SUBSCRIBE) sends; two gated publish handlers; instead of the handshake (servers); an outbound publish being streamed; clients: a lone SUBSCRIBE, a lone UNSUBSCRIBE outstanding; clients idle / with gated handlers also behind the topic router; servers with max_receive 1 and a 10-byte max_receive_size), handler completions interleaved; oracle: no panic, poll horizon never hit, at most one Stop, Stop reason is a protocol error unless a DISCONNECT (or client-side unknown PUBREL) is in the sequence, and a connection without Stop still answers a probe packet after the drain",
+        "per role and version: every sequence of up to {} well-formed packets over an alphabet of 27-31 templates (every packet type incl. those illegal in that direction, ids in use / free / unknown, PUBLISH complete / split in two or three writes / left incomplete / duplicate id / retain / wildcard topic / alias, second CONNECT, every ack type) against 7 (clients 8) application states (idle; a QoS 1 and a QoS 2 send whose futures were dropped after the packet was written; idle with a gated protocol service and a QoS 2 publish awaiting its PUBREL; outstanding QoS1+QoS2(+SUBSCRIBE) sends; two gated publish handlers; instead of the handshake (servers); an outbound publish being streamed; clients: a lone SUBSCRIBE, a lone UNSUBSCRIBE outstanding; clients idle / with gated handlers also behind the topic router; servers with max_receive 1 and a 10-byte max_receive_size), handler completions interleaved; oracle: no panic, poll horizon never hit, at most one Stop, Stop reason is a protocol error unless a DISCONNECT (or client-side unknown PUBREL) is in the sequence, and a connection without Stop still answers a probe packet after the drain",
         if tier == Tier::Quick { 3 } else { 4 }
     );
     ck.assumptions = vec!["FIFO task order of ntex-rt; nondeterminism = timing of environment events (DESIGN 2.4)".into()];
